@@ -672,17 +672,57 @@ func (g *c19ArgGen) value(t reflect.Type, method string, depth int) (reflect.Val
 			// a factory that makes jars (one that returns nil leaves the jar alone, by the code's own rule)
 			return reflect.ValueOf(g.w.mkJarFactory(1 + n%3)), true
 		}
+		// "value, err" functions (dialers, handshakes, proxy-header getters) fail cleanly; functions without such
+		// a pair return zero values, except that a wrapper (an interface / func result and no error result)
+		// hands back what it was given — as a function value that calls it, when the result is a func type —
+		// so that a chain built from generated wrappers stays usable
+		failing := false
+		if n := t.NumOut(); n >= 2 && t.Out(n-1) == c19TError {
+			switch t.Out(0).Kind() {
+			case reflect.Interface, reflect.Ptr, reflect.Func, reflect.Map, reflect.Slice:
+				failing = true
+			}
+		}
 		f := reflect.MakeFunc(t, func(args []reflect.Value) []reflect.Value {
 			out := make([]reflect.Value, t.NumOut())
 			for i := range out {
 				ot := t.Out(i)
 				out[i] = reflect.Zero(ot)
-				// wrappers hand back what they were given, so that a chain stays usable
+				if failing {
+					if i == len(out)-1 {
+						out[i] = reflect.ValueOf(fmt.Errorf("generated function: refused")).Convert(ot)
+					}
+					continue
+				}
+				if ot.Kind() != reflect.Interface && ot.Kind() != reflect.Func {
+					continue
+				}
 				for _, a := range args {
-					if a.Type().AssignableTo(ot) && (ot.Kind() == reflect.Interface || ot.Kind() == reflect.Func) && ot != c19TError {
+					if a.Type().AssignableTo(ot) && ot != c19TError {
 						out[i] = a
 						break
 					}
+					if ot.Kind() == reflect.Func && a.Kind() == reflect.Interface && !a.IsNil() {
+						// func(rt RoundTripper) RoundTripFunc: a function that calls rt's only method
+						if a.Elem().NumMethod() >= 1 {
+							for mi := 0; mi < a.Type().NumMethod(); mi++ {
+								m := a.Elem().MethodByName(a.Type().Method(mi).Name)
+								if m.IsValid() && m.Type().ConvertibleTo(ot) {
+									out[i] = m.Convert(ot)
+								}
+							}
+						}
+					}
+				}
+				if ot.Kind() == reflect.Func && out[i].IsNil() {
+					ft := ot
+					out[i] = reflect.MakeFunc(ft, func([]reflect.Value) []reflect.Value {
+						z := make([]reflect.Value, ft.NumOut())
+						for k := range z {
+							z[k] = reflect.Zero(ft.Out(k))
+						}
+						return z
+					})
 				}
 			}
 			return out
